@@ -35,6 +35,26 @@ def theorems_of(module):
     return out
 
 
+def audit_axioms_batch(pid, modules, theorems, timeout=1800):
+    """`#print axioms` for every theorem of all `modules` in one Lean session. Returns (dict name -> axioms | None, output)."""
+    if len(modules) == 1:
+        return audit_axioms(modules[0], theorems, timeout=timeout)
+    os.makedirs(os.path.join(LEAN_DIR, ".lake", "audit"), exist_ok=True)
+    path = os.path.join(LEAN_DIR, ".lake", "audit", "Audit_%s_all.lean" % pid)
+    with open(path, "w") as f:
+        for m in modules:
+            f.write("import %s\n" % m)
+        for t in theorems:
+            f.write("#print axioms %s\n" % t)
+    rc, out = run(["lake", "env", "lean", path], cwd=LEAN_DIR, timeout=timeout)
+    res = {t: None for t in theorems}
+    for m in re.finditer(r"'([^']+)' depends on axioms: \[([^\]]*)\]", out):
+        res[m.group(1)] = [a.strip() for a in m.group(2).replace("\n", " ").split(",") if a.strip()]
+    for m in re.finditer(r"'([^']+)' does not depend on any axioms", out):
+        res[m.group(1)] = []
+    return res, out
+
+
 class Ctx:
     def __init__(self, pid, tier, seed, replay=None):
         self.pid, self.tier, self.seed, self.replay = pid, tier, seed, replay
@@ -99,19 +119,16 @@ def run_check(pid, tier, seed, replay, t0):
         raise InfraError("forbidden tokens in Lean sources: " + "; ".join(hits[:5]))
     axioms = {}
     if theorems:
-        # one audit per module keeps import cost low
-        for m in prop_modules:
-            ths = theorems_of(m)
-            if not ths:
-                continue
-            res, out = audit_axioms(m, ths)
-            for t, ax in res.items():
-                if ax is None:
-                    raise InfraError("theorem %s not found by #print axioms:\n%s" % (t, out[-2000:]))
-                bad = [x for x in ax if x not in ALLOWED_AXIOMS]
-                if bad:
-                    raise InfraError("theorem %s depends on non-standard axioms %s" % (t, bad))
-                axioms[t] = ax
+        # ONE Lean session for all property modules of the check (the import of the Mathlib closure dominates the cost of an
+        # audit; a check with k modules paid it k times)
+        res, out = audit_axioms_batch(pid, [m for m in prop_modules if theorems_of(m)], theorems)
+        for t, ax in res.items():
+            if ax is None:
+                raise InfraError("theorem %s not found by #print axioms:\n%s" % (t, out[-2000:]))
+            bad = [x for x in ax if x not in ALLOWED_AXIOMS]
+            if bad:
+                raise InfraError("theorem %s depends on non-standard axioms %s" % (t, bad))
+            axioms[t] = ax
     if tier == "thorough" and prop_modules and not getattr(cfg, "SKIP_LEANCHECKER", False):
         rc, out = run(["lake", "env", "leanchecker"] + prop_modules, cwd=LEAN_DIR, timeout=3600)
         if rc != 0:
